@@ -300,8 +300,8 @@ Definition stack_num_values_skips_empty : bool := STACK_NUM_VALUES_SKIPS_EMPTY =
 Lemma stack_v1_docs_shifted_present : stack_v1_docs_shifted = true.
 Proof. vm_compute. reflexivity. Qed.
 
-(* F82 (genuine defect of the unchanged code, flag = 0): a value-less document of a v1 input adds a duplicate start
-   offset to the merged index *)
+(* F82 (fixed in /repo; regression witness over an explicit `false`): WITHOUT the filter a value-less document of a
+   v1 input adds a duplicate start offset to the merged index *)
 Definition f82_class (legacy_multivalued_rows : list (list N)) : bool :=
   existsb (fun r => Nat.leb 2 (length r)) legacy_multivalued_rows && existsb (fun r => Nat.eqb (length r) 0) legacy_multivalued_rows.
 Lemma stacked_legacy_empty_rows_refuted :
@@ -326,20 +326,34 @@ Proof.
   f_equal. symmetry. induction H as [|r t Hr _ IH]; [reflexivity|]. cbn [filter]. rewrite Hr, IH. reflexivity.
 Qed.
 
+(* for an explicit `skip_empty`: correct when value-less documents are skipped, or no v1 multivalued input has one *)
+Theorem stacked_with_legacy_inputs_g (skip_empty : bool) lkcs : inputs_ok (map strip lkcs) ->
+  (skip_empty = true \/ legacy_no_empty lkcs) ->
+  let merged := merge_stacked (map snd lkcs) in
+  si_stack_rows true (map si_of lkcs) 0 = Some (mv_docs_with_values merged) /\
+  si_start_offsets skip_empty (map si_of lkcs) = mv_start_offsets 0 merged.
+Proof.
+  intros Hok Hcls. cbv zeta.
+  destruct (stacked_with_legacy_inputs lkcs Hok) as [Hrows Hst]. split; [exact Hrows|].
+  destruct skip_empty; [exact Hst|]. destruct Hcls as [Hc|Hne]; [discriminate Hc|].
+  rewrite <- Hst. unfold si_start_offsets. f_equal. f_equal. f_equal. rewrite !map_map. apply map_ext_in. intros [[l k] c] Hin.
+  cbn [si_of]. destruct l, k; try reflexivity. cbn [si_num_values].
+  unfold legacy_no_empty in Hne. rewrite Forall_forall in Hne. specialize (Hne _ Hin eq_refl eq_refl). cbn [snd] in Hne.
+  rewrite v1_num_values_no_empty by exact Hne. symmetry. exact (proj2 (v1_input_as_current c 0%nat)).
+Qed.
+
+(* the source skips value-less documents of v1 inputs (fix of F82): re-checked on the regenerated constant *)
+Lemma stack_num_values_skips_empty_present : stack_num_values_skips_empty = true.
+Proof. vm_compute. reflexivity. Qed.
+
+(* the stacked merge as pinned from the source: correct for ALL inputs, of either format, at any position *)
 Theorem stacked_with_legacy_inputs_pinned lkcs : inputs_ok (map strip lkcs) ->
-  (stack_num_values_skips_empty = true \/ legacy_no_empty lkcs) ->
   let merged := merge_stacked (map snd lkcs) in
   si_stack_rows stack_v1_docs_shifted (map si_of lkcs) 0 = Some (mv_docs_with_values merged) /\
   si_start_offsets stack_num_values_skips_empty (map si_of lkcs) = mv_start_offsets 0 merged.
 Proof.
-  intros Hok Hcls. cbv zeta. rewrite stack_v1_docs_shifted_present.
-  destruct (stacked_with_legacy_inputs lkcs Hok) as [Hrows Hst]. split; [exact Hrows|].
-  destruct Hcls as [->|Hne]; [exact Hst|].
-  rewrite <- Hst. unfold si_start_offsets. do 3 f_equal. rewrite !map_map. apply map_ext_in. intros [[l k] c] Hin.
-  cbn [si_of]. destruct l, k; try reflexivity. cbn [si_num_values].
-  destruct stack_num_values_skips_empty; [reflexivity|].
-  unfold legacy_no_empty in Hne. rewrite Forall_forall in Hne. specialize (Hne _ Hin eq_refl eq_refl). cbn [snd] in Hne.
-  rewrite v1_num_values_no_empty by exact Hne. symmetry. exact (proj2 (v1_input_as_current c 0%nat)).
+  intros Hok. cbv zeta. rewrite stack_v1_docs_shifted_present, stack_num_values_skips_empty_present.
+  exact (stacked_with_legacy_inputs lkcs Hok).
 Qed.
 
 (* reading the merged (v2) multivalued index back: rows of the merged column *)
